@@ -4,6 +4,9 @@ import (
 	"context"
 	"errors"
 	"io"
+	"net"
+	"net/http"
+	"os"
 	"strings"
 )
 
@@ -103,7 +106,7 @@ func newInjectedAs(what string, as error) error {
 	return &disguisedError{inj: &injectedError{what: what}, as: as}
 }
 
-var disguises = []error{context.Canceled, context.DeadlineExceeded, io.EOF, io.ErrUnexpectedEOF}
+var disguises = []error{context.Canceled, context.DeadlineExceeded, io.EOF, io.ErrUnexpectedEOF, http.ErrNotSupported, os.ErrDeadlineExceeded, net.ErrClosed}
 
 // drawDisguise picks nil (mostly) or a sentinel for newInjectedAs.
 func drawDisguise(ch *Chooser, label string) error {
